@@ -259,6 +259,48 @@ ROUND5 = {
 }
 
 
+ROUND6 = {
+    ("C01", "A"): ("luminance taken from rgb_to_xyz()[1] (7-digit matrix row): ratios of chromatic colours off by <= 1e-3; needs a chromatic pair within ~1e-3 of a threshold", None),
+    ("C01", "B"): ("show/save_report branch recomputes success from the AA badge: very_readable calls with a preview report True at AA-only results", None),
+    ("C02", "A"): ("background's original (not its rgb) passed as compositing context: hsla text over fractional-float / HSL-style / numeric-string tuple backgrounds", "background spellings widened to every tuple form the reader accepts (fractions, 0-255 floats, numeric strings, percentages, (h, s, l))"),
+    ("C02", "B"): ("background context attached only for detected formats rgba/hsla/rgba_tuple: 'rgb(r g b / a)', 'rgb(r, g, b, a)' and 'r, g, b, a' composited over white", "alpha-carrying rgb()/informal spellings added to the translucent kinds of every pair workload"),
+    ("C03", "A"): ("shared strict step list extended in place by mode 2's last-resort branch: later mode-1/2 calls overshoot to dE ~11", None),
+    ("C03", "B"): ("text's background context attached after its eager parse: translucent text on a non-white background composited over white", "spelled route: each witness pair is also presented in another accepted spelling, translucent ones written so that the displayed text is the witness pair's"),
+    ("C04", "A"): ("'tolerance or 2.0' default: a tolerance of exactly 0 becomes 2.0", None),
+    ("C04", "B"): ("--mode not passed down into nested at-rules: strict mode inside @media/@supports runs mode 1", None),
+    ("C05", "A"): ("compositing context only for detected rgba/hsla/rgba_tuple: is_readable of alpha-carrying rgb()/informal spellings labels another pair", "pair-label check repeated with the pair in every accepted spelling, translucent spellings whose displayed colour is the pair's text"),
+    ("C05", "B"): ("'text, bg, *large = item': an explicit False flag becomes the truthy list [False]", None),
+    ("C06", "A"): ("format detection by exact type: namedtuple / tuple / list / str subclasses come back as hex", None),
+    ("C06", "B"): ("save_report branch converts the tuple result to an rgb() string in place and returns it", "format mapping also exercised with show / save_report"),
+    ("C07", "A"): ("hue read by a prefix-matching number regex: wrapped hues below 1e-4 print in exponent form and lose their exponent", None),
+    ("C07", "B"): ("bare-hex regex matched against the original-case string: 'FFF' / 'AbCdEf' rejected", None),
+    ("C08", "A"): ("error handler unlinks a stale output_path: an unprocessable entry visited after a good file deletes that file's output, which stays reported", "directory runs with unprocessable entries (non-UTF-8 bytes, a directory named *.css) beside and below the good sheets"),
+    ("C08", "B"): ("nested blocks re-serialised only when the direct child call reported a change: changes two at-rule levels down are reported but not written", None),
+    ("C09", "A"): ("input decoded with errors='replace': a legacy-encoding sheet gets an output with U+FFFD in comments and strings", "a stylesheet declaring @charset \"ISO-8859-1\" with Latin-1 bytes in comments and strings in directory runs (skipped, or carried through intact)"),
+    ("C09", "B"): ("directory walk resolves symlinks before the output location is chosen: output written beside the link target", "directory runs with an entry that is a symbolic link to a sheet outside (or elsewhere inside) the directory given"),
+    ("C10", "A"): ("oklch_to_rgb builds its result in a module-level list: concurrent calls from several threads mix channels", "round trips driven from 8 threads at once (switch interval 1 us) against single-threaded reference values"),
+    ("C10", "B"): ("clamp helper min(max(v, lo), hi): NaN passes through the safe fallbacks", None),
+    ("C11", "A"): ("inlined Lab transform tests y > eps for fx: a* wrong for dark saturated colours (X and Y on opposite sides of eps)", None),
+    ("C11", "B"): ("rgb_to_xyz guesses the scale from max(rgb) > 1: the seven 0/1-channel colours read as full-strength", None),
+    ("C12", "A"): ("bulk save_report block overwrites the tuple result with its rgb() string", None),
+    ("C12", "B"): ("already-readable fast path returns the caller's raw tuple (fractions, floats, string components)", None),
+    ("C13", "A"): ("RGBA tuple re-formatted into an rgba() string: float alphas below 1e-4 print in exponent notation and lose the exponent", "alphas next to 0 (1e-5 .. 1e-7) in every translucent spelling"),
+    ("C13", "B"): ("background's original passed to the parser: hsla text over non-integer 3-tuple backgrounds blended over the raw numbers", "every tuple form of background in the translucent workload"),
+    ("C14", "A"): ("input spliced into a str.format template on the component-error path: '{}' / '{name}' raise IndexError / KeyError", "template metacharacters ({}, {0}, {name}, %s, %(x)s, $x, \\1) in near-miss and special strings"),
+    ("C14", "B"): ("repr() of the input inside the except handler: ints beyond the interpreter's decimal-conversion limit raise ValueError there", "10**5000 / -10**5000 among the sequence elements (harness messages use a limit-free repr)"),
+    ("C15", "A"): ("shared step-list prefix extended in place by mode 2's option B: every later call of the process uses steps up to 15", None),
+    ("C15", "B"): ("bulk keyword 'large' shadows the loop variable: a 3-tuple's flag leaks into later 2-tuples", None),
+    ("C16", "A"): ("relaxed mode loses the initial default-mode shortcut: option B overrides mode-1 colours by one unit under very_readable", None),
+    ("C16", "B"): ("15 instead of 10 walk steps for AAA requests only: ordinary request fails where very_readable succeeds", None),
+    ("C17", "A"): ("bulk report helper formats the caller's raw tuples: HSL / string-component tuples make save_report raise", None),
+    ("C17", "B"): ("preview reads sys.stdout.encoding: AttributeError under stdout None / write-only stdout objects", None),
+    ("C18", "A"): ("discovery drops paths whose real file was already seen: a symlinked twin gets no output in directory runs", "trees with the same stylesheet reachable under a second path (symbolic link)"),
+    ("C18", "B"): ("output write moved out of the try: an unwritable output aborts the whole directory run", None),
+    ("C19", "A"): ("cards inserted with re.sub: backslash sequences in user text are processed after escaping", None),
+    ("C19", "B"): ("report opened without O_TRUNC: a shorter report keeps the tail of the previous one", None),
+}
+
+
 def archive(key, pid, src, v, needs, missed):
     if not os.path.exists(os.path.join(src, v + ".diff")):
         print(key, "missing deliverables")
@@ -298,6 +340,12 @@ def archive(key, pid, src, v, needs, missed):
 
 def main():
     want = sys.argv[1:]
+    if want and want[0] == "round6":
+        for (pid, v), (needs, missed) in sorted(ROUND6.items()):
+            if len(want) > 1 and f"{pid}{v}" not in want[1:]:
+                continue
+            archive(f"{pid}-R6{v}", pid, os.path.join("/tmp/seed6", pid + ".out"), v, needs, missed)
+        return
     if want and want[0] == "round5":
         for (x, v), (pid, needs, missed) in sorted(ROUND5.items()):
             archive(f"{pid}-R5{x}{v}", pid, os.path.join("/tmp/seed5", x + ".out"), v, needs, missed)
